@@ -21,5 +21,10 @@ for mid, row in sorted(rows.items()):
         caught_other.append((mid, hit[0]))
     else:
         missed.append(mid)
-print("changes: %d; caught by the check of their own property: %d; by another check only: %d %s; not caught: %d %s" % (
-    len(rows), len(caught_own), len(caught_other), caught_other, len(missed), missed))
+equiv, documented, open_ = [], [], []
+for mid in missed:
+    meta = json.load(open("%s/seeded/%s/meta.json" % (ROOT, mid)))
+    (equiv if meta.get("equivalent_since") else documented if meta.get("not_caught") else open_).append(mid)
+noapply = sorted(d for d in os.listdir(ROOT + "/seeded") if d[0] == "C" and os.path.isdir(ROOT + "/seeded/" + d) and d not in rows)
+print("changes: %d; caught by the check of their own property: %d; by another check only: %d %s; not caught: %d = no longer breaking since a later fix %s + out of the simulator's reach, documented %s + MISSED %s; no row (patch does not apply?): %s" % (
+    len(rows), len(caught_own), len(caught_other), caught_other, len(missed), equiv, documented, open_, noapply))
